@@ -663,6 +663,10 @@ func (u *URI) RequestURI() []byte {
 	var dst []byte
 	if u.DisablePathNormalizing {
 		dst = append(u.requestURI[:0], u.PathOriginal()...)
+		if len(dst) == 0 {
+			// an empty path is sent as "/" (RFC 7230 5.3.1)
+			dst = append(dst, '/')
+		}
 	} else {
 		dst = bytesconv.AppendQuotedPath(u.requestURI[:0], u.Path())
 	}
